@@ -8,7 +8,7 @@ Definition lift {A E} (r : nres A) : res A E :=
   match r with Ok a => Ok a | Err e => match e with end | Panic => Panic end.
 
 Record verifier := { vf_user : list N; vf_v : list N; vf_salt : list N }.
-Record srp_proof := { sp_user : list N; sp_B : list N; sp_salt : list N; sp_b : list N; sp_v : list N }.
+Record srp_proof := { pr_user : list N; pr_B : list N; pr_salt : list N; pr_b : list N; pr_v : list N }.
 Record srp_server := { ss_user : list N; ss_K : list N; ss_chal : list N }.
 
 Section Backend.
@@ -35,7 +35,7 @@ Definition salt_of (vf : verifier) := vf_salt vf.
 (* SrpVerifier::with_specific_private_key / into_proof (the `expect` is the documented panic) *)
 Definition with_specific_private_key (vf : verifier) (b : list N) : res srp_proof pk_error :=
   match calculate_server_public_key be (vf_v vf) b with
-  | Ok B => Ok {| sp_user := vf_user vf; sp_B := B; sp_salt := vf_salt vf; sp_b := b; sp_v := vf_v vf |}
+  | Ok B => Ok {| pr_user := vf_user vf; pr_B := B; pr_salt := vf_salt vf; pr_b := b; pr_v := vf_v vf |}
   | Err e => Err e
   | Panic => Panic
   end.
@@ -50,14 +50,14 @@ Definition into_proof (vf : verifier) (t : tape) : nres (srp_proof * tape) :=
    The reconnect challenge is drawn only on success. *)
 Definition into_server (p : srp_proof) (A client_proof : list N) (t : tape)
   : res (srp_server * list N * tape) match_err :=
-  let* K := lift (calculate_session_key be A (sp_B p) (sp_v p) (sp_b p)) in
-  let server_calculated := calculate_client_proof (sp_user p) K A (sp_B p) (sp_salt p) in
+  let* K := lift (calculate_session_key be A (pr_B p) (pr_v p) (pr_b p)) in
+  let server_calculated := calculate_client_proof (pr_user p) K A (pr_B p) (pr_salt p) in
   if negb (list_eqb client_proof server_calculated) then
     Err {| me_client_proof := client_proof; me_server_proof := server_calculated |}
   else
     let server_proof := calculate_server_proof A server_calculated K in
     let '(chal, t') := draw (N.to_nat reconnect_challenge_data_length) t in
-    Ok ({| ss_user := sp_user p; ss_K := K; ss_chal := chal |}, server_proof, t').
+    Ok ({| ss_user := pr_user p; ss_K := K; ss_chal := chal |}, server_proof, t').
 
 (* SrpServer::verify_reconnection_attempt: the challenge is re-randomised unconditionally,
    after the comparison *)
